@@ -16,5 +16,11 @@ CONSTANTS
   DevRebuildDropsLast = FALSE
   DevCsumClearsLeaf = FALSE
   DevSbCsumRefuses = FALSE
+  InitExtStates = {"w"}
+  InvalidIds = {}
+  CfModes = {"plain"}
+  DevRebuildMergesAcrossState = FALSE
+  DevEncCheckIgnoresStrict = FALSE
+  DevDupFoldsPlainDir = FALSE
   DevInodeUninitWipes = FALSE
 CHECK_DEADLOCK FALSE
